@@ -1085,6 +1085,10 @@ class ConvertInstance:
                     and source.type is _boolean.boolean
                     and target.type is _boolean.boolean
                 ):
+                    # the source might itself be the result of a removed cast
+                    if source in replacement_map:
+                        source = replacement_map[source]
+
                     replacement_map[target] = source
                     return ir.Nop()
 
